@@ -68,23 +68,25 @@ def main():
         ids = sorted(i for i in ms if i.startswith('bp-'))
     os.makedirs(SCR, exist_ok=True)
     results = {}
+    out = os.path.join(ROOT, 'selftest', 'mutant_results_%s.json' % tier)
+    def save():
+        old = {}
+        if os.path.exists(out):
+            old = json.load(open(out))
+        old.update(results)
+        json.dump(old, open(out, 'w'), indent=1, sort_keys=True)
     with ThreadPoolExecutor(int(os.environ.get('MUT_PAR', '3'))) as ex:
         futs = [ex.submit(run_one, i, ms[i][0], ALL if allp else ms[i][1], tier) for i in ids]
         for f in futs:
             mid, res = f.result()
             results[mid] = res
+            save()
             own = ms[mid][1]
             caught = [p for p, r in res.items() if isinstance(r, dict) and r.get('exit') == 1]
             print('%-10s own=%s caught_by=%s %s' % (mid, ','.join(own), ','.join(caught) or '-', ' ; '.join('%s:%s' % (p, r.get('clause')) for p, r in res.items() if isinstance(r, dict) and r.get('exit') == 1)), flush=True)
             for p, r in res.items():
                 if isinstance(r, dict) and r.get('exit') not in (0, 1):
                     print('    %s exit=%s %s' % (p, r.get('exit'), r.get('detail', '')[:300]), flush=True)
-    out = os.path.join(ROOT, 'selftest', 'mutant_results_%s.json' % tier)
-    old = {}
-    if os.path.exists(out):
-        old = json.load(open(out))
-    old.update(results)
-    json.dump(old, open(out, 'w'), indent=1, sort_keys=True)
     shutil.rmtree(SCR, ignore_errors=True)
 
 
